@@ -51,7 +51,13 @@ CFG = {
                  "go": {"package": "main", "uppercase_acronyms": ["ID", "URL"], "no_pointer_slice": True}},
     "swift_defaults": {"swift": {"default_decorators": ["Sendable", "Identifiable"], "default_generic_constraints": ["Sendable"], "codablevoid_constraints": ["Equatable"]}},
     "header": {l: {"version_header": True} for l in common.LANGS},
+    "folder": {},
+    "folder_prefix": {"swift": {"prefix": "Pre"}, "kotlin": {"prefix": "Pre"}},
 }
+FOLDER_USE = "use other_crate::Imported;\nuse other_crate::sub::{Second, Third as Renamed3};\n"
+FOLDER_USER = "#[typeshare]\npub struct UsesImported {\n    pub i: Imported,\n    pub many: Vec<Second>,\n    pub q: other_crate::Qualified,\n}\n"
+FOLDER_OTHER = ("#[typeshare]\npub struct Imported { pub x: u32 }\n#[typeshare]\npub struct Second { pub y: u32 }\n"
+                "#[typeshare]\npub struct Third { pub z: u32 }\n#[typeshare]\npub struct Qualified { pub q: u32 }\n")
 HELPERS = ("#[typeshare]\npub struct Other {\n    pub o: u32,\n}\n#[typeshare]\npub struct Pair<A, B> {\n    pub a: A,\n    pub b: B,\n}\n")
 
 
@@ -220,7 +226,12 @@ def judge(chk, pairs, work, tag):
     for lang, c in pairs:
         cfg = dict(DEFAULT_CFG[lang])
         cfg.update(CFG[c["cfg"]].get(lang, {}))
-        jobs.append({"id": len(jobs), "lang": lang, "files": [{"src": source(c)}], "cfg": cfg})
+        if c["cfg"].startswith("folder"):
+            jobs.append({"id": len(jobs), "lang": lang, "multi_file": True, "cfg": cfg,
+                         "files": [{"src": FOLDER_USE + source(c) + FOLDER_USER, "crate": "cratex", "path": "cratex/src/lib.rs", "out": "cratex"},
+                                   {"src": FOLDER_OTHER, "crate": "other_crate", "path": "other_crate/src/lib.rs", "out": "other_crate"}]})
+        else:
+            jobs.append({"id": len(jobs), "lang": lang, "files": [{"src": source(c)}], "cfg": cfg})
     results = []
     for part in common.chunks(jobs, 20000):
         results += common.run_driver("gen", part)
@@ -233,8 +244,10 @@ def judge(chk, pairs, work, tag):
             msg = str(r.get("errors"))[:160]
             refused[msg] = refused.get(msg, 0) + 1
             continue
-        text = r["outputs"].get("", "")
+        text = r["outputs"].get("cratex" if c["cfg"].startswith("folder") else "", "")
         ev = event_for(lang, text)
+        if lang == "python" and c["cfg"].startswith("folder"):
+            ev["folder"] = True
         if lang == "python":
             p = os.path.join(work, f"{tag}{len(events)}.py")
             open(p, "w").write(text)
